@@ -296,10 +296,14 @@ func raceV1(c Cfg, n, capIn int) {
 	// control operations must not be issued once termination has begun (that
 	// panics by design): the graceful stop waits for the control threads
 	ctlDone := vrt.MakeChan[struct{}](2)
+	xcap := 1 // capacity of the channels added at run time (Mode "unbufadd": unbuffered)
+	if c.Mode == "unbufadd" {
+		xcap = 0
+	}
 	nctl := 0
 	if c.Script > 0 {
 		nctl++
-		extra := vrt.MakeChan[*raceItem](1)
+		extra := vrt.MakeChan[*raceItem](xcap)
 		vrt.Spawn("control", func() {
 			d.AddInput(extra, c.P[0]+1)
 			vrt.Send(extra, &raceItem{P: int(c.P[0]) + 1})
@@ -311,7 +315,7 @@ func raceV1(c Cfg, n, capIn int) {
 	if c.Script > 1 {
 		// a second goroutine adding and removing concurrently with the first
 		nctl++
-		extra2 := vrt.MakeChan[*raceItem](1)
+		extra2 := vrt.MakeChan[*raceItem](xcap)
 		vrt.Spawn("control2", func() {
 			d.AddInput(extra2, c.P[0]+2)
 			d.RemoveInput(c.P[0] + 2)
